@@ -10,6 +10,12 @@ T = {
  "C01": (True, "exploration", "runtime monitoring: offline checker over the recorded event log (per-stream order, exactly-once of acknowledged ids, sidecar==log) on seeded concurrent stress histories with injected delays at hook points",
    "Held on N observed concurrent histories (2-16 writer threads, sessions and tasks through the real router, restarts) with delay injection inside the seq->append window; a narrowed critical section produces a duplicate seq within one history. Not exhaustive over schedules.",
    "Trusts the harness, serde_json, that hook points only change timing; schedules limited to what OS scheduling + injected delays produce."),
+ "C04": (True, "fault_enumeration", "runtime monitoring: differential oracle (answers with caches as found vs caches removed, plus raw-log reference for replay/cut points) over an enumeration of cache-fault scripts x query set; termination decided by counting cache.scan hook ticks per query (step budget)",
+   "Every (cache file class x fault kind x position) single fault is injected into seeded histories (with further appends and restarts), then random multi-fault scripts on the index files, plus directed threads beyond every tail window (>10^4 frames, >8 MiB sidecar, dense non-message frames); each of ~35 queries is compared as-found vs no-cache. Known design gap (stale well-formed sidecars are believed) is listed in known_findings.json by (query, file, fault class, position); everything else must agree.",
+   "Reference = the no-cache path of the same code (replay and cut points are additionally checked against an independent raw-log model); termination is only judged for loops that reach the cache.scan hook."),
+ "C15": (True, "exploration", "runtime monitoring: metamorphic oracle (frames identical across all chunkings of one body) + reference SSE parser, on the public decoder API (every split position) and end to end against a scripted TCP provider with the sse.chunk hook recording the partitions really delivered",
+   "Millions of partitions of generated SSE texts through SseDecoder/EventFrameMapper (every single split for short streams, 2-splits, char-at-a-time, random) and thousands of real session runs receiving the same body under different TCP chunkings incl. splits inside multi-byte characters, CR|LF, field names and invalid UTF-8; evidence counts the distinct partitions observed at the hook.",
+   "WHATWG-style reference restricted to documented SSE subset; end-to-end part explores the partitions TCP/hyper actually deliver."),
 }
 NOT_BUILT_REASON = "monitor not built yet in this round (work in progress; see DESIGN.md section 3 for the design)"
 
